@@ -60,7 +60,7 @@ FLOORS = {
                     "keepall_noepoch": 4, "keep2_noepoch": 3, "keepall_mixed": 3,
                     "branch_new_best": 30, "branch_prev_best": 10, "branch_older_best": 6,
                     "first_update_no_csv": 30, "user_entries": 12, "lr_reduced": 3,
-                    "two_faults": 16, "two_faults_leftover_directed": 12},
+                    "two_faults": 16, "two_faults_leftover_directed": 12, "best_by_train_differs_from_best_by_val": 2},
         "stats": {"second_fault_states": 100, "crash_states": 700, "crash_states_real_exit": 200, "crash_model_faithful": 1,
                   "state_csv_created_empty": 30, "state_temp_file_present": 400,
                   "state_between_replaces": 80, "state_mid_cleanup": 25,
@@ -125,6 +125,9 @@ def generate(rng, tier, i):
         "two_faults": (3 if i % 3 == 0 else 0) if tier == "thorough" else (1 if i % 2 == 0 else 0),
         "n_max": n_max,
     })
+    # the caller's choice of which metric "best" refers to (training instead of validation); train and val
+    # histories are drawn independently, so the two readings name different epochs
+    case["best_is_train"] = fmt in ("default", "custom") and rng.random() < 0.3
     return case
 
 
@@ -132,9 +135,18 @@ def generate(rng, tier, i):
 # scenario helpers
 
 
+def _ukw(case, e):
+    kw = G.user_kwargs(case, e)
+    if case.get("best_is_train"):
+        kw["best_is_train"] = True
+    return kw
+
+
 class Scn:
     def __init__(self, case):
         self.case = case
+        self.by_train = bool(case.get("best_is_train"))
+        self.met = case["train"] if self.by_train else case["val"]
         mf, of = FORMATS[case["fmt"]]
         self.model_fmt = mf or DEFAULT_FMT[0]
         self.optim_fmt = of or DEFAULT_FMT[1]
@@ -148,7 +160,7 @@ class Scn:
         self.refused_at = None
         if case["keep2"] and not (self.model_has_epoch and self.optim_has_epoch):
             for e in range(2, n + 1):
-                if ref.best_epoch(case["val"], e) != e:
+                if ref.best_epoch(self.met, e) != e:
                     self.refused_at, n = e, e - 1
                     break
         self.n = n
@@ -165,7 +177,7 @@ class Scn:
         return s
 
     def best(self, upto):
-        return ref.best_epoch(self.case["val"], upto)
+        return ref.best_epoch(self.met, upto)
 
 
 def _has_epoch(fmt):
@@ -187,7 +199,7 @@ def _update(mon, scn, ctrl, model, opt, e, label="update_for_epoch"):
     case = scn.case
     G.train_to(model, opt, e)
     return mon.lib(label, lambda: ctrl.update_for_epoch(
-        model, opt, case["train"][e - 1], case["val"][e - 1], **G.user_kwargs(case, e)))
+        model, opt, case["train"][e - 1], case["val"][e - 1], **_ukw(case, e)))
 
 
 class State:
@@ -356,7 +368,7 @@ def _real_deaths(mon, T, scn, root, tracer, states, chosen, recs):
                     tracer.die_at(s.idx, root)
                     case = scn.case
                     ctrl.update_for_epoch(model, opt, case["train"][k - 1], case["val"][k - 1],
-                                          **G.user_kwargs(case, k))
+                                          **_ukw(case, k))
                     os._exit(3)  # event not reached
                 except BaseException:
                     os._exit(4)
@@ -441,7 +453,8 @@ def _recover(mon, T, scn, st, root, recs, final_csv, ref_infos, tracer=None, nes
     b = scn.best(L)
     if b > 0:
         m2, _ = G.make_model_opt(case["cfg"], case["groups"])
-        _with_facts(facts, lambda: mon.lib("recovery:load_model_for_epoch", lambda: ctrl.load_model_for_epoch(m2)))
+        _with_facts(facts, lambda: mon.lib("recovery:load_model_for_epoch",
+                                           lambda: ctrl.load_model_for_epoch(m2, b if scn.by_train else None)))
         _check_loaded(mon, "recovery-best-params", facts, m2, None, b, None, best=b, **det)
         m3, o3 = G.make_model_opt(case["cfg"], case["groups"])
         _with_facts(facts, lambda: mon.lib("recovery:load_model_and_optimizer_for_epoch",
@@ -502,7 +515,8 @@ def _final_checks(mon, T, scn, root, recs, ref_infos, facts, monitor, det, upto=
         _check_loaded(mon, monitor, facts, m, o, e, recs[e]["lrs"], asked=e, **det)
     if scn.best(n) > 0:
         m, _ = G.make_model_opt(case["cfg"], case["groups"])
-        _with_facts(facts, lambda: mon.lib("recovery:load_model_for_epoch", lambda: ctrl.load_model_for_epoch(m)))
+        _with_facts(facts, lambda: mon.lib("recovery:load_model_for_epoch", lambda: ctrl.load_model_for_epoch(
+            m, scn.best(n) if scn.by_train else None)))
         _check_loaded(mon, monitor, facts, m, None, scn.best(n), None, asked="best", **det)
 
 
@@ -575,6 +589,10 @@ def execute(case, mon):
         mon.cls("refusal_ends_history")
     if case["entries"]:
         mon.cls("user_entries")
+    if scn.by_train:
+        mon.cls("best_is_train")
+        if any(scn.best(k) != ref.best_epoch(case["val"], k) for k in range(1, n + 1)):
+            mon.cls("best_by_train_differs_from_best_by_val")
     if any(s["reduced"] for s in scn.steps):
         mon.cls("lr_reduced")
     for k in range(1, n + 1):
@@ -609,7 +627,7 @@ def _case(case, mon, T, scn, tracer, base, problems):
         e = scn.refused_at
         G.train_to(model, opt, e)
         try:
-            ctrl.update_for_epoch(model, opt, case["train"][e - 1], case["val"][e - 1], **G.user_kwargs(case, e))
+            ctrl.update_for_epoch(model, opt, case["train"][e - 1], case["val"][e - 1], **_ukw(case, e))
             mon.stat("refusal_expected_but_update_succeeded")
         except ValueError:
             mon.stat("refused_to_overwrite_best")
